@@ -616,6 +616,7 @@ class World:
         ev = dict(op)
         kind = op["op"]
         self.rec.take()
+        self.rec.take_chain()
         try:
             res = getattr(self, "op_" + kind)(op)
         except FormulaError as e:
@@ -623,6 +624,9 @@ class World:
             ev["res"] = exc_code(err) if kind == "call" else "rejected"
             ev["errtype"] = type(err).__name__
             ev["tb"] = self._traceback()
+            chain = self.rec.take_chain()
+            if chain is not None and kind == "call":
+                ev["tbx"] = chain
         except (DeepReferenceError, NoneReturnedError) as e:
             ev["res"] = exc_code(e) if kind == "call" else "rejected"
             ev["errtype"] = type(e).__name__
